@@ -65,7 +65,11 @@ int_t VH_WORKINIT(int_t n, int_t panel_size, int_t **iworkptr, VH_REAL **dworkpt
     int_t nd = n * panel_size + SUPERLU_MAX(2 * n, (maxsuper + rowblk) * panel_size);
     int_t i;
     ++vh_workinit_calls;
+#ifdef VH_IWORK_ARBITRARY
+    *iworkptr = (int_t *)malloc(ni * sizeof(int_t));   /* user-workspace mode: ?user_malloc hands out the caller's bytes as they are */
+#else
     *iworkptr = (int_t *)calloc(ni, sizeof(int_t));   /* intCalloc */
+#endif
     (void)i;
     *dworkptr = (VH_REAL *)malloc(nd * sizeof(VH_REAL));
     return 0;
